@@ -9,6 +9,11 @@ legs: MC   TLC runs the statement machine of Statements.tla (rewrite into the te
            of the pool carry flags of their own (other than / equal to their transaction's); the register and the
            column `flag` in FROM / WHERE mean the transaction's (posting_flag the posting's).  A mechanism that reads
            `flag` from the posting first must be rejected.
+           A row of the entries table stands for a directive of ANY type: the columns flag, payee, narration, tags, links
+           are the TRANSACTION's (NULL on every other row), while notes and documents carry tags and links of their own
+           (directive pool: what the directive carries; DirRow: what the columns mean).  PRINT filters include
+           'x' IN tags / links, IS [NOT] NULL and NOT over them (NOT NULL is TRUE); a mechanism whose column accessor
+           hands out the attribute of whatever directive has one of that name must be rejected.
            StatementsSession.tla is the grain above: connections with their registered table objects and SESSIONS
            (sequences of statements, each deriving its table by update() = shallow copy and scanning prepare());
            invariant: every statement is evaluated on (ledger of its connection, its OWN clauses) whatever ran
@@ -1273,6 +1278,10 @@ def run(ctx):
         'applied with beancount.core.convert.get_units / get_cost',
         'the flag of the register (and the column flag in FROM / WHERE) is the flag of the transaction, as the column '
         'documents; the flag a posting carries itself is posting_flag',
+        'the columns tags / links of the entries table are the set of tags / links of the transaction, as the columns '
+        'document: NULL for every other directive, also for notes and documents (which have tags and links of their own); '
+        'the trace records what each directive carries, the specification (DirRow) says what the columns show',
+        'NOT NULL is TRUE (BQL\'s NULL-aware NOT, as property C01 states it)',
         'a result is a function of (ledger, statement): the statements of a ledger share one shell / connection and what '
         'ran before must not matter (StatementsSession.tla); S2C sessions compare with a connection that executed nothing else',
         'what a statement returns does not depend on how it is submitted (typed, or stored in the ledger by a query '
@@ -1292,7 +1301,7 @@ def run(ctx):
     # ---- MC
     if want('MC'):
         import concurrent.futures as cf
-        # the five non-vacuity runs (small, they stop at the first counterexample) run next to the exhaustive one
+        # the six non-vacuity runs (small, they stop at the first counterexample) run next to the exhaustive one
         with cf.ThreadPoolExecutor(12) as pool:
             futs = [pool.submit(ctx.tlc, 'MC_Statements', 'MC_Statements_%s.cfg' % v, leg='MC-nonvacuity',
                                 expect_violation='DenoteIsMeaning', workers=2, jvm=JVM)
